@@ -22,6 +22,44 @@ func init() {
 	})
 }
 
+// prePublication: the call site lies in handle (or in a helper called only from handle, up to a
+// small depth) at a point no handler dispatch can precede.
+func prePublication(p *Prog, handle *ssa.Function, site ssa.CallInstruction, depth int) bool {
+	if site == nil || depth > 3 {
+		return false
+	}
+	fn := site.Parent()
+	isDisp := func(in ssa.Instruction) bool {
+		ci, ok := in.(ssa.CallInstruction)
+		return ok && isHandlerDispatch(ci)
+	}
+	// no dispatch in fn can be followed by the site
+	var disps []ssa.Instruction
+	ForEachInstr(fn, func(in ssa.Instruction) {
+		if isDisp(in) {
+			disps = append(disps, in)
+		}
+	})
+	for _, d := range disps {
+		if found, _ := (PathQuery{Target: func(in ssa.Instruction) bool { return in == ssa.Instruction(site) }}).Search(fn, d); found {
+			return false
+		}
+	}
+	if fn == handle {
+		return true
+	}
+	es := p.Callers(fn)
+	if len(es) == 0 {
+		return false
+	}
+	for _, e := range es {
+		if e.Kind != "static" || !prePublication(p, handle, e.Site, depth+1) {
+			return false
+		}
+	}
+	return true
+}
+
 func runC14(c *Ctx) {
 	p := c.P
 	bpPut := p.MustFunc("(*bufferPool).Put")
@@ -448,8 +486,8 @@ func runC14(c *Ctx) {
 			}
 			for _, e := range p.Callers(m) {
 				okCaller := locked[e.Caller]
-				if !okCaller && e.Caller == handle {
-					c.Exception(FuncName(e.Caller)+" -> "+FuncName(m), "pre-publication: called before the handler is dispatched, the adapter is not yet visible to another goroutine")
+				if !okCaller && prePublication(p, handle, e.Site, 0) {
+					c.Exception(FuncName(e.Caller)+" -> "+FuncName(m), "pre-publication: called (within the request handler, possibly through its helpers) before the handler is dispatched, the adapter is not yet visible to another goroutine")
 					okCaller = true
 				}
 				c.Check(okCaller, "C14.2", FuncName(m), "helper-called-under-lock:"+FuncName(e.Caller), e.Site.Pos(),
